@@ -61,11 +61,12 @@ class Ev:
         return abs(self.s) * (hs + abs(self.c) + 1e-300)
 
 
-def random_event_spec(rng, prob, t0, tf, dim, terminal=False, kinds=None, scale_decades=(-6, 6)):
+def random_event_spec(rng, prob, t0, tf, dim, terminal=False, kinds=None, scale_decades=(-6, 6), tm=None):
     kind = str(rng.choice(kinds or KINDS))
     sc = float(10 ** rng.uniform(*scale_decades)) * float(rng.choice([-1, 1]))
     spec = {"kind": kind, "scale": sc, "direction": int(rng.choice([-1, 0, 0, 1])), "terminal": bool(terminal)}
-    tm = t0 + float(rng.uniform(0.15, 0.9)) * (tf - t0)
+    if tm is None:
+        tm = t0 + float(rng.uniform(0.15, 0.9)) * (tf - t0)
     ys = np.asarray(prob.ystar(tm), dtype=np.float64)
     if kind in ("component", "steep"):
         i = int(rng.integers(dim))
